@@ -21,7 +21,8 @@ RULE = ("(a) Programs: random trees (depth <= 3, <= 7 leaves) of CompositeTransf
         "flattened); log-det = sum_k (#coordinates entering stage k) * log scale_k; inverse restores the input bit-for-bit; "
         "shapes add_transform must refuse raise ValueError. Programs run under a float64 default dtype or as a .double() twin of a model "
         "built under the float32 default (results must stay float64); repeated calls on one wrapper object (other calls in between) "
-        "must reproduce the first, checked, results bit-for-bit. Non-trivial: >= 2 parts/stages.")
+        "must reproduce the first, checked, results bit-for-bit. Composites may hold the same transform object at two positions. "
+        "Non-trivial: >= 2 parts/stages.")
 ASSUMPTIONS = ["integer-valued float64 arithmetic is exact below 2^53", "the interpreter trusts only the leaves' own forward/inverse"]
 EXHAUSTIVE = {"quick": True, "thorough": True}
 EXPLANATION = "exhaustive over the multiscale shape/stage/split grid; programs are generated"
